@@ -776,11 +776,48 @@ def area_regex(ctx, b):
         _random.setstate(state)
     driver = common.ModelDriver()
     ops, exp = [], []
+    def expected_guarded(ic, pat, s, repl, limit=0.5):
+        """CPython's answers to the five operations, computed in a forked child under a time limit: an exponential pattern
+        makes `re` itself run for minutes (the C matcher cannot be interrupted), such a case is dropped, not waited for"""
+        import os
+        import pickle
+        import select
+        r, w = os.pipe()
+        pid = os.fork()
+        if pid == 0:
+            try:
+                os.close(r)
+                out = []
+                for op in 'MFSUA':
+                    t0 = time.time()
+                    e = D.expected(op, ic, pat, s, repl)
+                    out.append(None if time.time() - t0 > 0.05 else e)
+                os.write(w, pickle.dumps(out))
+            finally:
+                os._exit(0)
+        os.close(w)
+        try:
+            ready, _, _ = select.select([r], [], [], limit)
+            if not ready:
+                os.kill(pid, 9)
+                ctx.count('regex_cpython_too_slow')
+                return [None] * 5
+            data = b''
+            while True:
+                chunk = os.read(r, 65536)
+                if not chunk:
+                    break
+                data += chunk
+            return pickle.loads(data) if data else [None] * 5
+        finally:
+            os.close(r)
+            try:
+                os.waitpid(pid, 0)
+            except ChildProcessError:
+                pass
     for ic, pat, s, repl in cases:
-        for op in 'MFSUA':
-            t0 = time.time()
-            e = D.expected(op, ic, pat, s, repl)
-            if time.time() - t0 > 0.05:
+        for op, e in zip('MFSUA', expected_guarded(ic, pat, s, repl)):
+            if e is None:
                 continue                               # CPython itself needs long (exponential pattern): not compared
             ops.append(f'R.case {op} {ic} {D.enc(pat)} {D.enc(s)} {D.enc(repl)}')
             exp.append((op, ic, pat, s, e))
